@@ -155,7 +155,7 @@ Proof.
                                       then (s1, Normal) else _ s1))).
   intro x. apply R3_bind; [apply R3_del_files|].
   destruct (filter (fun t => mem t (recs (cur x))) (trash (cur x))); [apply R3_ret|].
-  apply R3_bind; (apply R3_with_reg; [apply R3_ev, R3_upd_keep; keep3 | wb]).
+  apply R3_with_reg; [apply R3_bind; apply R3_ev, R3_upd_keep; keep3 | wb].
 Qed.
 
 Lemma R3_purge : forall d, R3 d (exec_op shipped (Purge d)).
@@ -200,3 +200,27 @@ Proof.
   - rewrite A, B, C; auto.
   - apply K; exact N.
 Qed.
+
+(* ---------------------------------------------------------------------------------------------------------- *)
+(* e615ec5: emptyTrash deletes the datastore records and the trash rows in ONE registry transaction.  With two separate
+   commits a fault between them left a trash row whose records were gone; emptyTrash only looks at trash rows that
+   still have records, so nothing could ever delete it.  On the shipped model the trash table drains at EVERY fault
+   position of the purge of the one stored dataset (finite: fewer than 40 boundaries; bound in the statement). *)
+Definition after_empty_c (c : cfg) (s : st) := fst (exec c (POp EmptyTrash) (set_fuse None s)).
+
+Definition trash_drained (c : cfg) (j : nat) : bool :=
+  let '(s', r) := exec c (POp (Purge 1)) (with_fuse j s_one) in
+  match trash (cur (after_empty_c c s')) with [] => true | _ => false end.
+
+Lemma purge_trash_drains_p : forall j, (j < 40)%nat -> trash_drained shipped j = true.
+Proof.
+  assert (H : forallb (trash_drained shipped) (seq 0 40) = true) by (vm_compute; reflexivity).
+  intros j L. rewrite forallb_forall in H. apply H. rewrite in_seq. lia.
+Qed.
+
+Lemma trash_row_stuck_without_fix_p :
+  exists j, let '(s', r) := exec nofix_et (POp (Purge 1)) (with_fuse j s_one) in
+            r = Raised false /\ ds (cur s') = [] /\ fs s' = [] /\
+            recs (cur (after_empty_c nofix_et s')) = [] /\ trash (cur (after_empty_c nofix_et s')) = [1] /\
+            trash (cur (after_empty_c nofix_et (after_empty_c nofix_et s'))) = [1].
+Proof. exists 12%nat. vm_compute. repeat split. Qed.
